@@ -34,16 +34,20 @@ theorem C18_parity_remote_exec {fails : Item → Bool} {st st' : State} {id : Na
 /-- **C18 (channels travel).** When an item carrying channel ids is accepted by the receiver thread
 (for a callback, or into the queue of a registered channel object), every carried id is afterwards a
 live, registered channel object at the receiving side — the existing one for that conversation, or a
-fresh one (only the carrying channel itself may meanwhile have been closed by a failing callback). -/
+fresh one (only the carrying channel itself may meanwhile have been closed by a failing callback).
+Hypothesis `hio`: if the item goes to a callback that raises, the connection is still up
+(`x.ioOpen = true` suffices) — a callback raising after the IO was closed ends the receiver thread, and
+its epilogue unregisters every channel object. -/
 theorem C18_travel (fails : Item → Bool) (x : SideSt) (wk : Bool) (id : Nat) (v : Item)
     (hx : ∀ j, (x.chans j).registered = true → (x.chans j).created = true ∧ (x.chans j).alive = true)
-    (hacc : x.cbs id ≠ none ∨ ((x.chans id).registered = true ∧ (x.chans id).queue ≠ none)) :
+    (hacc : x.cbs id ≠ none ∨ ((x.chans id).registered = true ∧ (x.chans id).queue ≠ none))
+    (hio : x.cbs id ≠ none → fails v = true → x.ioOpen = true) :
     ∀ c ∈ v.chans,
       ((handle fails x wk (.data id v)).chans c).created = true ∧
       ((handle fails x wk (.data id v)).chans c).alive = true ∧
       (((handle fails x wk (.data id v)).chans c).registered = true ∨
         (c = id ∧ x.cbs id ≠ none ∧ fails v = true ∧ ((handle fails x wk (.data id v)).chans c).closed = true)) :=
-  Net.C18_travel fails x wk id v hx hacc
+  Net.C18_travel fails x wk id v hx hacc hio
 
 /-- **C18 (no growth).** The per-gateway tables only hold open conversations: a registered channel
 object is alive, not closed and has not seen the end of its receiving side; a registered callback
